@@ -73,6 +73,9 @@ Definition params := list (str * str).
 Definition has (k : str) (p : params) : bool :=
   match lookup k p with Some _ => true | None => false end.
 
+(* dict.get of a {user: password} table *)
+Definition table_of (t : list (str * str)) : str -> option str := fun u => lookup u t.
+
 (* _parseDigestAuthorization after the dict has been built: true = accepted *)
 Definition digest_valid (p : params) : bool :=
   has s_username p && has s_realm p && has s_nonce p && has s_uri p && has s_response p
@@ -185,7 +188,10 @@ Section Auth.
     end.
 
   (* check_auth; [hdr = None]: no Authorization header *)
-  Definition check_auth (hdr : option str) (method realm : str) (users : list (str * str)) : outcome :=
+  (* [users]: the configured table as the function user name -> entry.  A dict (or a callable
+     returning a dict) is [table_of items]; a callable taking the user name and returning the
+     (possibly pre-encrypted) password is any function; [None] = users.get(...) is None. *)
+  Definition check_auth (hdr : option str) (method realm : str) (users : str -> option str) : outcome :=
     match hdr with
     | None => Refused false
     | Some cred =>
@@ -193,7 +199,7 @@ Section Auth.
       | PCrash => Crash
       | PNone => Refused true
       | PBasic u p =>
-        match lookup u users with
+        match users u with
         | None => Refused true
         | Some entry =>
           match enc p u with
@@ -205,7 +211,7 @@ Section Auth.
         match lookup s_username ps with
         | None => Crash   (* unreachable: digest_valid *)
         | Some u =>
-          match lookup u users with
+          match users u with
           | None => Refused true
           | Some entry =>
             match lookup s_realm ps, lookup s_response ps with
